@@ -101,3 +101,12 @@ Example C04_level_edit_example :
               (40, mkE [7; 6] [6] (EBranch 12 9 [(0, 6); (1, 7)])) ] in
   wf_check h = true /\ level_okb h 1 g' = true.
 Proof. vm_compute. split; reflexivity. Qed.
+
+(* what the per-call column means: when it is 1, the hierarchy the implementation produced (ha) is
+   self-consistent - the hierarchy before the call passed wf_check, the dictionary of the level read off ha
+   meets level_okb, and ha is the written-back hierarchy up to the order of the node list, which keeps WfHier
+   (LevelWfRun.compared_equal_keeps_wf) *)
+Theorem C04_level_edit_column_sound :
+  forall h ha lvl, wf_level_col h ha lvl = 1%Z -> WfHier ha.
+Proof. exact wf_level_col_sound. Qed.
+Print Assumptions C04_level_edit_column_sound.
